@@ -633,6 +633,20 @@ def run_op(spec):
         return ["err", type(e).__name__]
 
 
+def resource_key(spec):
+    """what an operation uses for the first time in a fresh interpreter, as far as its specification tells: the
+       (word-list family, language) of a mnemonic operation, the (hierarchy, coin) of a coin operation, else the kind
+       and its first argument"""
+    k = spec[0]
+    if k.startswith("mn."):
+        if k == "mn.shared":
+            return "mn|%s|shared" % spec[1]
+        return "mn|%s|%s" % (spec[2], spec[3])
+    if len(spec) >= 3 and isinstance(spec[1], str) and spec[1] + "Coins" in ALL:
+        return "coin|%s|%s" % (spec[1], spec[2])
+    return "%s|%s" % (k, json.dumps(spec[1]) if len(spec) > 1 else "")
+
+
 def op_name(spec, limit=44):
     def sh(a):
         s = a if isinstance(a, str) else json.dumps(a)
@@ -793,7 +807,43 @@ def snapdiff(a, b):
 
 # ----------------------------------------------------------------------------------- worker
 
+def run_rounds(rounds, seed):
+    """Schedule stream: every round starts len(round) threads behind a barrier, thread i performs round[i]; meant
+       for a FRESH interpreter, where the operations of a round are the first use of some lazily initialised
+       shared state.  The seed only varies how long each thread spins after the barrier."""
+    import random
+    old = sys.getswitchinterval()
+    sys.setswitchinterval(1e-6)
+    out = []
+    try:
+        for ri, rnd in enumerate(rounds):
+            n = len(rnd)
+            bar = threading.Barrier(n)
+            res = [None] * n
+
+            def work(i, rnd=rnd, bar=bar, res=res, ri=ri):
+                spin = random.Random(seed * 1000003 + ri * 101 + i).randrange(0, 400)
+                try:
+                    bar.wait(60)
+                except threading.BrokenBarrierError:
+                    pass
+                for _ in range(spin):
+                    pass
+                res[i] = run_op(rnd[i])
+            ths = [threading.Thread(target=work, args=(i,)) for i in range(n)]
+            for th in ths:
+                th.start()
+            for th in ths:
+                th.join()
+            out.append(res)
+    finally:
+        sys.setswitchinterval(old)
+    return out
+
+
 def handle(req):
+    if "rounds" in req:
+        return {"rres": run_rounds(req["rounds"], int(req.get("seed") or 0))}
     ops = req["ops"]
     out = {}
     only = req.get("snapmods")
